@@ -1,0 +1,68 @@
+//go:build verif
+
+// Contracts for package electrum (comment-only, read by /verif/govc; never compiled
+// into the product: the build tag "verif" is not set by any build of peerswap).
+package electrum
+
+// ---------------------------------------------------------------------------
+// C20: the Electrum (LWK) observers report an opening transaction as confirmed
+// only while the payment window is open and the transaction is at least
+// LiquidConfs deep below the tip they were notified of; they report the failure
+// once the window has closed; CSV maturity only at csv confirmations.
+// Ground truth: the height Electrum's history reports for the watched
+// transaction (ghost histTxHeight / histTxFound, fixed by the GetHistory answer).
+// ---------------------------------------------------------------------------
+//@ ghost histTxHeight int64
+//@ ghost histTxFound bool
+
+//@ interface RPC.GetHistory
+//@ assigns ghost.histTxHeight, ghost.histTxFound
+
+//@ interface RPC.GetRawTransaction
+//@ assigns nothing
+
+// getHeight scans the history answer for the watched transaction: a loop over a
+// slice of library records with hash parsing; its body is outside the verifier.
+// ASSUMED: it returns what the last history answer says about the watched tx.
+//@ func getHeight
+//@ trusted
+//@ ensures result0 == BlockHeight(ghost.histTxHeight) && result1 == ghost.histTxFound
+//@ ensures !result1 ==> result0 == 0
+//@ assigns nothing
+
+//@ func hasConfirmations
+//@ property C20
+//@ ensures @C20 deep-enough: (result0 && result1 == nil) ==> (txHeight > 0 && txHeight <= tipHeight && mi(tipHeight) - mi(txHeight) + 1 >= mi(required))
+//@ ensures @C20 not-yet: (!result0 && result1 == nil) ==> (txHeight <= 0 || mi(tipHeight) - mi(txHeight) + 1 < mi(required))
+//@ ensures @C20 error-iff-inconsistent: result1 != nil <==> (tipHeight <= 0 || (txHeight > 0 && txHeight > tipHeight))
+//@ ensures @C20 error-says-no: result1 != nil ==> !result0
+//@ assigns nothing
+
+// the confirmation callback of the opening-transaction observer
+//@ callback observeOpeningTX.cb
+//@ requires @C20,in:currentHeight confirmed-only-in-window: err == nil ==> (mi(currentHeight) >= mi(recv.startingHeight) && mi(currentHeight) < mi(recv.startingHeight) + mi(recv.paymentWindow))
+//@ requires @C20,in:currentHeight confirmed-only-when-deep: err == nil ==> (ghost.histTxFound && ghost.histTxHeight > 0 && mi(currentHeight) - mi(ghost.histTxHeight) + 1 >= 2)
+//@ requires @C20,in:currentHeight failure-only-outside-window: err != nil ==> (currentHeight > 0 && (mi(currentHeight) < mi(recv.startingHeight) || mi(currentHeight) >= mi(recv.startingHeight) + mi(recv.paymentWindow)))
+//@ requires @C20 once: !ghost.reported
+//@ ensures ghost.reported
+//@ assigns ghost.reported
+
+//@ ghost reported bool
+
+//@ func (*observeOpeningTX).Callback
+//@ property C20
+//@ requires o != nil && !ghost.reported
+//@ ensures @C20 failure-once-closed: (currentHeight > 0 && mi(currentHeight) >= mi(o.startingHeight) + mi(o.paymentWindow)) ==> (result0 && ghost.reported)
+//@ ensures @C20 reported-iff-called-back: result0 <==> ghost.reported
+//@ ensures @C20 invalid-tip-reports-nothing: currentHeight <= 0 ==> (!result0 && result1 != nil)
+
+//@ callback observeCSVTX.cb
+//@ requires @C20,in:currentHeight mature-only-when-deep: ghost.histTxFound && ghost.histTxHeight > 0 && mi(currentHeight) - mi(ghost.histTxHeight) + 1 >= mi(recv.csv)
+//@ requires @C20 once: !ghost.reported
+//@ ensures ghost.reported
+//@ assigns ghost.reported
+
+//@ func (*observeCSVTX).Callback
+//@ property C20
+//@ requires o != nil && !ghost.reported
+//@ ensures @C20 reported-iff-called-back: result0 <==> ghost.reported
